@@ -330,6 +330,45 @@ theorem C12_invalid_char_lead (q : Nat) (hq : q = 34 ∨ q = 39) (s1 ctx : Str) 
     stepTok_tok_nextToken (by rw [haw]; exact lead_before_quote q hq s1 ctx l hl line col log h1 h1e h1q hctx)
   exact ⟨ha, die_of_accept (d := []) (nextToken_detl .cif2 _) ha⟩
 
+/-! ### a defective unit inside a COMMENT (group gW) -/
+
+/-- **C12_defective_unit_comment** — ONE defective code unit `c` (`Defect1`: a character outside the dialect's set, or an unpaired
+    trail surrogate) inside a comment `#s₁ c s₂` that ends with a line terminator, the rest of the comment admissible, whitespace
+    already seen in this next_token call (or none required): exactly the reports of the unit (`reps`: CIF_DISALLOWED_CHAR once —
+    twice in CIF 1.1 for a non-ASCII non-CIF character — resp. CIF_INVALID_CHAR once), at the comment's line and the column behind
+    the unit; NO token is produced and the token loop continues at the line terminator exactly as it does behind the clean comment
+    (same position, `after_ws` set) — whatever follows; under the abort-on-error handler the call ends with the code of the oldest
+    of these reports, having logged it alone. -/
+theorem C12_defective_unit_comment (dia : Dialect) (c c' : Nat) (reps : Nat → Nat → List Report) (hD : Defect1 dia c c' reps)
+    (s1 s2 R : Str) (line col f : Nat) (log : List Report)
+    (h1 : okUnits dia none s1 = true) (h1e : s1.all (fun x => !isEol x) = true)
+    (h2 : okUnits dia none s2 = true) (h2e : s2.all (fun x => !isEol x) = true) :
+    tokLoop dia (f + 1) true ⟨35 :: (s1 ++ c :: (s2 ++ 10 :: R)), line, col⟩ acceptAll log
+      = tokLoop dia f true ⟨10 :: R, line, col + 1 + colAdd s1 + 1 + colAdd s2⟩ acceptAll (reps line (col + 1 + colAdd s1 + 1) ++ log)
+    ∧ (∀ d r, reps line (col + 1 + colAdd s1 + 1) = d ++ [r] →
+        tokLoop dia (f + 1) true ⟨35 :: (s1 ++ c :: (s2 ++ 10 :: R)), line, col⟩ dieAll log = .abort r.code (r :: log)) :=
+  ⟨hD.comment s1 s2 R line col f log h1 h1e h2 h2e, fun d r hr => hD.comment_die s1 s2 R line col f log d r h1 h1e h2 h2e hr⟩
+
+/-- … as a statement about next_token: a comment at a place where no whitespace is required (start of the input, behind `[`, `{`, a
+    key) — the call returns what the call at the line terminator behind the comment returns, the reports of the unit logged first -/
+theorem C12_defective_unit_comment_nextToken (dia : Dialect) (c c' : Nat) (reps : Nat → Nat → List Report) (hD : Defect1 dia c c' reps)
+    (s1 s2 R : Str) (line col : Nat) (lt lt' : TokType) (log : List Report) (haw : afterWsOf lt = true) (haw' : afterWsOf lt' = true)
+    (h1 : okUnits dia none s1 = true) (h1e : s1.all (fun x => !isEol x) = true)
+    (h2 : okUnits dia none s2 = true) (h2e : s2.all (fun x => !isEol x) = true) :
+    nextToken dia ⟨35 :: (s1 ++ c :: (s2 ++ 10 :: R)), line, col, lt⟩ acceptAll log
+      = nextToken dia ⟨10 :: R, line, col + 1 + colAdd s1 + 1 + colAdd s2, lt'⟩ acceptAll (reps line (col + 1 + colAdd s1 + 1) ++ log) := by
+  rw [nextToken_eq, nextToken_eq]
+  simp only [haw, haw']
+  have e : (35 :: (s1 ++ c :: (s2 ++ 10 :: R))).length + 1 = ((s1 ++ c :: (s2 ++ 10 :: R)).length + 1) + 1 := by simp
+  rw [e, hD.comment s1 s2 R line col _ log h1 h1e h2 h2e]
+  rw [tokLoop_fuel dia acceptAll ((s1 ++ c :: (s2 ++ 10 :: R)).length + 1) ((10 :: R).length + 1) true _ _
+    (by simp only [List.length_append, List.length_cons]; omega) (by simp)]
+
+/-- non-vacuity: U+0001 in a CIF 2.0 comment, an unpaired trail surrogate in a CIF 1.1 comment -/
+example : Defect1 .cif2 1 1 (disReps .cif2 1) ∧ Defect1 .cif1 0xDC00 (replChar .cif1) (fun line col => [⟨CIF_INVALID_CHAR, line, col⟩])
+    ∧ okUnits .cif2 none (a!" note") = true ∧ (a!" note").all (fun x => !isEol x) = true :=
+  ⟨(C12_disallowed_char .cif2 1 (by decide)).1, (C12_invalid_char_trail .cif1 0xDC00 (by decide)).1, by decide, by decide⟩
+
 /-- die policy, generically: whenever the accept-all run of a next_token call logs reports `d ++ [r]` (r the oldest), the call
     under `cif_parse_error_die` returns r's code, having logged r only — this turns every accept-all equation above into its
     die clause -/
